@@ -257,7 +257,110 @@ func main() {
 		}(j)
 	}
 	wg.Wait()
+	if *tier == "thorough" {
+		fuzzStage(r, dir)
+	}
 	r.Sample(map[string]interface{}{"engine": "decoder", "origin": "base:12:wrong-kind-literal@/object/published", "input": map[string]interface{}{"@context": "https://www.w3.org/ns/activitystreams", "type": "Create", "object": map[string]interface{}{"type": "Note", "published": "not a date"}}})
 	r.Sample(map[string]interface{}{"engine": "handlers", "origin": "inbox.Accept.follow:store[https://local.example/act/f1]:remove@/actor", "note": "the stored Follow loses its actor before an Accept of it arrives"})
 	os.Exit(r.Finish())
+}
+
+// fuzzStage runs the coverage-guided decoder fuzzer for a fixed number of
+// executions (thorough tier only). A crasher is a real panic with its input
+// saved by the Go fuzzing engine; it is copied into the violation and removed
+// from the source tree.
+func fuzzStage(r *verdict.Run, dir string) {
+	root := verdict.Root()
+	seedDir := filepath.Join(dir, "fuzzseeds")
+	os.MkdirAll(seedDir, 0755)
+	// seeds: every example embedded in the vocabulary files
+	n := 0
+	for _, f := range []string{"activitystreams.jsonld", "security-v1.jsonld", "toot.jsonld", "forgefed.jsonld"} {
+		b, err := os.ReadFile(filepath.Join(verdict.Repo(), "astool", f))
+		if err != nil {
+			continue
+		}
+		var doc interface{}
+		if json.Unmarshal(b, &doc) != nil {
+			continue
+		}
+		var walk func(v interface{})
+		walk = func(v interface{}) {
+			switch x := v.(type) {
+			case map[string]interface{}:
+				if me, ok := x["mainEntity"].(map[string]interface{}); ok {
+					if _, has := me["@context"]; !has {
+						me["@context"] = "https://www.w3.org/ns/activitystreams"
+					}
+					if eb, err := json.Marshal(me); err == nil {
+						os.WriteFile(filepath.Join(seedDir, fmt.Sprintf("ex%04d.json", n)), eb, 0644)
+						n++
+					}
+				}
+				for _, vv := range x {
+					walk(vv)
+				}
+			case []interface{}:
+				for _, vv := range x {
+					walk(vv)
+				}
+			}
+		}
+		walk(doc)
+	}
+	execs := "2000000x"
+	args := []string{"test"}
+	if mf := os.Getenv("VERIF_MODFILE"); mf != "" {
+		args = append(args, "-modfile="+mf)
+	}
+	args = append(args, "-run", "^$", "-fuzz=FuzzToType", "-fuzztime="+execs, "./fuzz/")
+	cmd := exec.Command("go", args...)
+	cmd.Dir = root
+	cmd.Env = append(os.Environ(), "VERIF_FUZZ_SEEDS="+seedDir, "GOFLAGS=-mod=mod", "GOPROXY=off", "GOSUMDB=off", "GOTOOLCHAIN=local")
+	out, err := cmd.CombinedOutput()
+	text := string(out)
+	r.Count("fuzz.seed_documents", n)
+	var lastExecs int
+	for _, l := range strings.Split(text, "\n") {
+		if i := strings.Index(l, "execs: "); i >= 0 {
+			fmt.Sscanf(l[i:], "execs: %d", &lastExecs)
+		}
+	}
+	r.Count("fuzz.executions", lastExecs)
+	r.Eval(lastExecs)
+	crashDir := filepath.Join(root, "fuzz", "testdata", "fuzz", "FuzzToType")
+	files, _ := filepath.Glob(filepath.Join(crashDir, "*"))
+	if err != nil || len(files) > 0 {
+		if len(files) == 0 && !strings.Contains(text, "FAIL") {
+			r.Inconclusive("fuzz stage failed to run: " + lastN(text, 6))
+			return
+		}
+		for _, f := range files {
+			b, _ := os.ReadFile(f)
+			site := "unknown"
+			for _, l := range strings.Split(text, "\n") {
+				l = strings.TrimSpace(l)
+				if strings.HasPrefix(l, "github.com/go-fed/activity/") {
+					site = strings.TrimPrefix(l, "github.com/go-fed/activity/")
+					if i := strings.LastIndex(site, "("); i > 0 {
+						site = site[:i]
+					}
+					break
+				}
+			}
+			r.Violate(verdict.Sig{Rule: "C11.decoder-panic", Site: site, Feature: "found by the coverage-guided fuzzer"}, map[string]interface{}{"engine": "fuzzer", "input_file": string(b)}, lastN(text, 40))
+			os.Remove(f)
+		}
+		os.Remove(crashDir)
+		os.Remove(filepath.Dir(crashDir))
+		os.Remove(filepath.Dir(filepath.Dir(crashDir)))
+	}
+}
+
+func lastN(s string, n int) string {
+	l := strings.Split(strings.TrimSpace(s), "\n")
+	if len(l) > n {
+		l = l[len(l)-n:]
+	}
+	return strings.Join(l, "\n")
 }
